@@ -12,6 +12,7 @@ import (
 	"path/filepath"
 	"sort"
 	"strings"
+	"time"
 )
 
 type c10Diff struct {
@@ -282,6 +283,12 @@ func c10Run(c *Ctx) {
 	if c.Shard == 0 {
 		c10CLI(c)
 	}
+	if c.Shard == 1 {
+		c10Volume(c, freshDir(c.Scratch, "c10vol"), 6000)
+	}
+	if c.Shard == 2 && c.Thorough() {
+		c10Volume(c, freshDir(c.Scratch, "c10vol"), 70000)
+	}
 }
 
 // c10CLI: separate processes, two line orders, the run that creates the key file vs later runs,
@@ -323,7 +330,7 @@ func c10CLI(c *Ctx) {
 	for _, extra := range [][]string{nil, {"--redactNumbers", "--redactBooleans", "--redactNamespaces", "--replacement", customReplacement}} {
 		os.Remove(keyPath)
 		enc := append([]string{"--encrypt", "--encryptionKeyFile", keyPath}, extra...)
-		first, ok1 := run(inF, "enc1.log", enc...) // creates the key file
+		first, ok1 := run(inF, "enc1.log", enc...)  // creates the key file
 		second, ok2 := run(inF, "enc2.log", enc...) // uses it
 		back, ok3 := run(inB, "enc3.log", enc...)   // other line order, separate process
 		dict2, ok4 := run(inD, "enc4.log", enc...)  // another file
@@ -407,6 +414,71 @@ func c10CLI(c *Ctx) {
 	}
 }
 
+// c10Volume: one long run.  n lines with pairwise different literals, then the first lines again: every literal
+// must decrypt to itself and equal plaintexts must have equal ciphertexts however many other values were
+// encrypted in between (state that builds up during a run - caches, tables - only shows in long runs).
+func c10Volume(c *Ctx, dir string, n int) {
+	var sb strings.Builder
+	var pts []string
+	line := func(i int) {
+		pt := fmt.Sprintf("tenant-%d-%x", i, i*2654435761)
+		pts = append(pts, pt)
+		fmt.Fprintf(&sb, `{"t":{"$date":"2024-05-01T10:00:00.000+00:00"},"s":"I","c":"COMMAND","id":51803,"ctx":"conn1","msg":"Slow query","attr":{"ns":"d.c","command":{"find":"c","filter":{"tenant":%q},"$db":"d"}}}`+"\n", pt)
+	}
+	for i := 0; i < n; i++ {
+		line(i)
+	}
+	for i := 0; i < 400; i++ {
+		line(i * 7 % n)
+	}
+	in, out, keyPath := filepath.Join(dir, "volume.log"), filepath.Join(dir, "volume.out"), filepath.Join(dir, "volume.key")
+	os.WriteFile(in, []byte(sb.String()), 0o644)
+	os.Remove(keyPath)
+	r, err := runCLI(CLIRun{Bin: c.CLI, Args: []string{"redact", in, "--outputFile", out, "--encrypt", "--encryptionKeyFile", keyPath}, Dir: dir, Timeout: 300 * time.Second})
+	c.Count("cli_runs", 1)
+	if err != nil || r.Exit != 0 {
+		c.Violate("cli:volume:exit", fmt.Sprintf("redact --encrypt over %d lines exits %d: %s", len(pts), r.Exit, trunc(string(r.Stderr), 200)), 0, map[string]any{"kind": "cli-volume", "lines": len(pts)}, nil)
+		return
+	}
+	kb, _ := os.ReadFile(keyPath)
+	key, err := base64.StdEncoding.DecodeString(strings.TrimSpace(string(kb)))
+	ob, _ := os.ReadFile(out)
+	outs := strings.Split(strings.TrimSuffix(string(ob), "\n"), "\n")
+	if err != nil || len(key) != 64 || len(outs) != len(pts) {
+		c.Violate("cli:volume:output", fmt.Sprintf("%d input lines, %d output lines, key file usable: %v", len(pts), len(outs), err == nil && len(key) == 64), 0, map[string]any{"kind": "cli-volume"}, nil)
+		return
+	}
+	seen := map[string]string{}
+	rev := map[string]string{}
+	c.Eval(int64(len(outs)))
+	for i, o := range outs {
+		j, err := ParseJSON([]byte(o))
+		if err != nil {
+			continue
+		}
+		v := follow(j, []int{6, 1, 1, 0})
+		if v == nil || v.Kind != JStr {
+			continue
+		}
+		raw, err := base64.StdEncoding.DecodeString(v.Str)
+		var pt []byte
+		if err == nil {
+			pt, err = Decrypt(raw, key)
+		}
+		switch {
+		case err != nil || string(pt) != pts[i]:
+			c.Violate("cli:volume:wrong-ciphertext", fmt.Sprintf("line %d of a %d-line run: the emitted text does not decrypt to the literal %q (decrypts to %q, err %v)", i+1, len(pts), pts[i], trunc(string(pt), 40), err), int64(i), map[string]any{"kind": "cli-volume", "lines": n, "line": i + 1}, nil)
+		case seen[pts[i]] != "" && seen[pts[i]] != v.Str:
+			c.Violate("cli:volume:nondeterministic", fmt.Sprintf("the literal %q has two ciphertexts within one run of %d lines (lines apart: first seen earlier, again at line %d)", pts[i], len(pts), i+1), int64(i), map[string]any{"kind": "cli-volume", "lines": n, "line": i + 1}, nil)
+		case rev[v.Str] != "" && rev[v.Str] != pts[i]:
+			c.Violate("cli:volume:collision", fmt.Sprintf("the literals %q and %q share a ciphertext within one run", rev[v.Str], pts[i]), int64(i), map[string]any{"kind": "cli-volume", "lines": n, "line": i + 1}, nil)
+		}
+		seen[pts[i]], rev[v.Str] = v.Str, pts[i]
+	}
+	c.Outcome("volume-run-checked")
+	c.Count("max:volume_lines", int64(len(pts)))
+}
+
 func c10Post(c *Ctx, m *Part) {
 	if vs := m.Facts["dictionary-digest"]; len(vs) > 1 {
 		c.Violate("determinism:across-processes", fmt.Sprintf("worker processes computed different ciphertexts for the shared dictionary under the same key: %v", vs), 0, map[string]any{"kind": "facts", "values": vs}, nil)
@@ -416,7 +488,7 @@ func c10Post(c *Ctx, m *Part) {
 func init() {
 	register(&PropDef{
 		ID: "C10", Level: "exploration",
-		Rule: "G inside the claim at 0 deviations (all gates x containers x 23 leaf kinds) under all 32 sets over N,B,I,W,R, <=1 non-default production under 4 sets (thorough: <=2 under 2), 5 keys: each line redacted in placeholder mode and in encrypt mode, outputs parsed and walked with the labelled input: every leaf either equal in both modes or (placeholder mode replaced a string) the encrypt-mode value is strict base64 that decrypts under the key to the input value; SECRET strings that placeholder mode replaces must be ciphertext; nothing is encrypted that placeholder mode keeps; same keys and shape; one ciphertext per plaintext over the whole dictionary seen by a worker, no two plaintexts share one (injective), a 31-word near-duplicate dictionary (trailing space, case, NFC/NFD, prefixes, empty) digested per worker process and compared across the 16 processes; fail-closed: every 0-deviation line with encryption requested and unusable key material set through the API (0,1,16,32,63,65,128 bytes): no SECRET canary in the output; CLI: the run that creates the key file vs the next run vs reversed line order vs another file vs placeholder mode, leaf-wise relation under the key the CLI stored. distinct = distinct input lines with a SECRET leaf",
+		Rule:        "G inside the claim at 0 deviations (all gates x containers x 23 leaf kinds) under all 32 sets over N,B,I,W,R, <=1 non-default production under 4 sets (thorough: <=2 under 2), 5 keys: each line redacted in placeholder mode and in encrypt mode, outputs parsed and walked with the labelled input: every leaf either equal in both modes or (placeholder mode replaced a string) the encrypt-mode value is strict base64 that decrypts under the key to the input value; SECRET strings that placeholder mode replaces must be ciphertext; nothing is encrypted that placeholder mode keeps; same keys and shape; one ciphertext per plaintext over the whole dictionary seen by a worker, no two plaintexts share one (injective), a 31-word near-duplicate dictionary (trailing space, case, NFC/NFD, prefixes, empty) digested per worker process and compared across the 16 processes; fail-closed: every 0-deviation line with encryption requested and unusable key material set through the API (0,1,16,32,63,65,128 bytes): no SECRET canary in the output; CLI: the run that creates the key file vs the next run vs reversed line order vs another file vs placeholder mode, leaf-wise relation under the key the CLI stored. distinct = distinct input lines with a SECRET leaf",
 		Assumptions: []string{"5 keys out of 2^512", "inputs never hold a placeholder text as a literal", "the label table of G is the trusted base for 'must be ciphertext'"},
 		Run:         c10Run, Post: c10Post,
 	})
